@@ -1042,7 +1042,10 @@ impl Entry {
                     .filter_map(|c| c.as_token().map(|t| t.text()))
                     .collect::<String>();
                 let formatted = format_value(self.key().as_ref().unwrap(), &concat);
-                crate::lex::lex_inline(&formatted)
+                // Every line of the result is (the rest of) a line of the value
+                formatted
+                    .split_inclusive(crate::common::is_newline)
+                    .flat_map(crate::lex::lex_inline)
                     .map(|(k, t)| (k, t.to_string()))
                     .collect::<Vec<_>>()
             } else {
